@@ -229,31 +229,35 @@ func runC16(c *an.Ctx) {
 		return false
 	}
 	if mField != nil {
-		nonPos := &an.Guard{Name: "m <= 0", FailValue: an.ATrue, MatchValue: func(v ssa.Value) bool {
-			b, ok := v.(*ssa.BinOp)
-			if !ok || !derivedFromM(b.X) {
-				return false
-			}
-			k, isC := b.Y.(*ssa.Const)
-			if !isC || k.Value == nil || k.Value.Kind() != constant.Int {
-				return false
-			}
-			z, _ := constant.Int64Val(k.Value)
-			return b.Op == token.LEQ && z == 0 || b.Op == token.LSS && z == 1
-		}}
-		v := an.Guarded(c.P, fn, []*an.Guard{nonPos}, isVerifyCall, false)
+		// every comparison below is matched in all its spellings (mirrored operands, negated operator)
+		notM := func(v ssa.Value) bool { return !derivedFromM(v) }
+		nonPos := append(relGuards("m <= 0", token.LEQ, derivedFromM, isConstVal("0")), relGuards("m < 1", token.LSS, derivedFromM, isConstVal("1"))...)
+		v := an.Guarded(c.P, fn, nonPos, isVerifyCall, false)
 		c.Check(v.Holds && v.GuardSites >= 1, "guard-threshold|checkTransactionSignatures|m>0", "no verification is attempted (and so nothing accepted) for a threshold m <= 0", c.P.Rel(fn.Pos()), "verification reachable with m <= 0: "+v.Witness)
-		gtKeys := &an.Guard{Name: "m > n", FailValue: an.ATrue, MatchValue: func(v ssa.Value) bool {
-			b, ok := v.(*ssa.BinOp)
-			return ok && b.Op == token.GTR && derivedFromM(b.X)
-		}}
-		v = an.Guarded(c.P, fn, []*an.Guard{gtKeys}, isVerifyCall, false)
+		_ = notM
+		// n is the number of keys, sn the number of signatures of the same Sig
+		lenOf := func(field string) func(ssa.Value) bool {
+			return func(v ssa.Value) bool {
+				if cv, isC := v.(*ssa.Convert); isC {
+					v = cv.X
+				}
+				k, isCall := v.(*ssa.Call)
+				if !isCall {
+					return false
+				}
+				bi, isB := k.Call.Value.(*ssa.Builtin)
+				if !isB || bi.Name() != "len" {
+					return false
+				}
+				f := fieldOfLoad(k.Call.Args[0])
+				return f != nil && f.Name() == field
+			}
+		}
+		gtKeys := relGuards("m > n", token.GTR, derivedFromM, lenOf("PubKeys"))
+		v = an.Guarded(c.P, fn, gtKeys, isVerifyCall, false)
 		c.Check(v.Holds && v.GuardSites >= 1, "guard-threshold|checkTransactionSignatures|m<=n", "no verification is attempted for a threshold above the number of keys", c.P.Rel(fn.Pos()), "verification reachable with m > n: "+v.Witness)
-		fewSigs := &an.Guard{Name: "len(sigs) < m", FailValue: an.ATrue, MatchValue: func(v ssa.Value) bool {
-			b, ok := v.(*ssa.BinOp)
-			return ok && b.Op == token.LSS && derivedFromM(b.Y)
-		}}
-		v = an.Guarded(c.P, fn, []*an.Guard{fewSigs}, isVerifyCall, false)
+		fewSigs := relGuards("len(sigs) < m", token.LSS, lenOf("SigData"), derivedFromM)
+		v = an.Guarded(c.P, fn, fewSigs, isVerifyCall, false)
 		c.Check(v.Holds && v.GuardSites >= 1, "guard-threshold|checkTransactionSignatures|sigs>=m", "no verification is attempted with fewer signatures than the threshold", c.P.Rel(fn.Pos()), "verification reachable with sn < m: "+v.Witness)
 	} else {
 		c.Undecide("anchor|core/types.Sig.M", "anchors must resolve", "-", "field not found")
